@@ -445,7 +445,7 @@ def check_property(prop, spec, tier, seed, replay=None):
                 sig = "exit-leak|asan:LeakSanitizer"
                 if prop not in BLOCK_LEAK_PROPS and "vkit::tok::" not in res.stderr_full:
                     advisory.append({"sig": sig + " [heap block leak: C16 territory]", "case": case, "detail": text})
-                    continue
+                    kind = None
             if kind == "miri" and "memory leaked" in text:
                 # reported at process exit: the last case marker is not the culprit;
                 # attribute to the allocation's first frame inside the crate under test
@@ -456,12 +456,14 @@ def check_property(prop, spec, tier, seed, replay=None):
                 alloc_file = m.group(1) if m else ""
                 if prop not in BLOCK_LEAK_PROPS and not alloc_file.endswith("src/tok.rs"):
                     # a leaked heap *block* requested by the crate (not an element's payload):
-                    # that is C15/C16's statement, not this property's -> recorded, not gating
+                    # that is C16's statement, not this property's -> recorded, not gating
                     advisory.append({"sig": sig + " [heap block leak: C16 territory]", "case": case, "detail": text})
-                    continue
+                    kind = None
             entry = {"prop": prop, "sig": sig, "case": case, "detail": text + "\n" + res.stderr_tail[-1500:], "log": [],
                      "variant": r.variant, "engine": r.engine, "args": r.args}
-            if r.advisory:
+            if kind is None:
+                pass  # already recorded as advisory above
+            elif r.advisory:
                 advisory.append(entry)
             elif case != "?" or kind == "miri" or prop in MEMORY_PROPS:
                 violations.append(entry)
